@@ -9,7 +9,8 @@ import weakref
 from harness import core
 from harness.checks import lifelib as L
 
-C09_KINDS = ['plain', 'body', 'form', 'raise', 'nf', 'm405', 'crash', 'json404', 'hdrs', 'badpath', 'badchunk', 'oversize']
+C09_KINDS = ['plain', 'body', 'form', 'raise', 'nf', 'm405', 'crash', 'json404', 'hdrs', 'badpath', 'badchunk', 'oversize',
+             'badchunk_json', 'oversize_json']
 C09_CONFIG = {'max_body_size': 1000}
 
 
@@ -184,14 +185,14 @@ def run_c08(chk):
     for w in ws_orders:
         reqs = [(w['plan'][0][0], 'A'), (w['plan'][1][0], 'B')]
         execute(reqs, [t - 1 for t in w['order']], tag='tlc')
-    if thorough:
+    if True:
         lf = (os.path.join(core.REPO, 'ombott'),)
-        for _ in range(400):
+        for _ in range(1500 if thorough else 160):
             ks = [rng.choice(kinds) for _ in range(2)]
             reqs = [(ks[0], 'A'), (ks[1], 'B')]
-            a = rng.randint(0, 900)
-            b = rng.randint(1, 900)
-            execute(reqs, [0] * a + [1] * b + [0] * 3000, line_files=lf, tag='line')
+            a = rng.randint(0, 700)
+            b = rng.choice([5000, 5000, rng.randint(1, 900)])     # mostly: the other request runs to completion in between
+            execute(reqs, [0] * a + [1] * b + [0] * 5000, line_files=lf, tag='line')
     judge(chk, 'C08', traces, closure_known=False)
     chk.extra['assumptions'] = ['pre-emption happens at accessor calls (quick) and additionally at every source line of ombott/* (thorough)',
                                 'CPython: a thread switch inside one bytecode of the accessors is not modelled']
@@ -206,9 +207,11 @@ def report_resp(chk, pid, tr, known_closure=False):
     case = {'requests': [list(r) if isinstance(r, tuple) else r for r in tr['reqs']], 'schedule': tr['sched'],
             'thread': i, 'got': got if not isinstance(got, list) or len(json.dumps(got)) < 3000 else str(got)[:3000],
             'arrangement': tr.get('arr', 'threads'), 'explained_by_closure_rebinding': bool(tr.get('asis', False)) and known_closure,
+            'closure_case': (tr.get('arr', 'threads') + ':response') if (tr.get('asis') and known_closure) else None,
             'stale_kind': tr.get('stale_kind')}
-    chk.violation('%s: response of request %s (thread %d) differs from the response the same request gets when served alone; '
-                  'schedule %s...' % (pid, tr['reqs'][i], i, tr['sched'][:30]), case)
+    rq = tr['reqs'][i] if i < len(tr['reqs']) else tr['reqs']
+    chk.violation('%s: response #%d of %s differs from the response the same request gets when served alone; '
+                  'schedule %s...' % (pid, i, rq, tr['sched'][:30]), case)
 
 
 def judge(chk, pid, traces, closure_known):
@@ -228,7 +231,8 @@ def judge(chk, pid, traces, closure_known):
         else:
             case = {'requests': [list(r) if isinstance(r, tuple) else r for r in tr['reqs']], 'schedule': tr['sched'],
                     'arrangement': tr.get('arr', 'threads'), 'clauses': sorted(cl),
-                    'explained_by_closure_rebinding': tr['asis'] and closure_known}
+                    'explained_by_closure_rebinding': tr['asis'] and closure_known,
+                    'closure_case': (tr.get('arr', 'threads') + ':isolation') if (tr['asis'] and closure_known) else None}
             chk.violation('%s: an accessor read returned a value this thread did not write on this object during its request '
                           '(Isolation) for requests %s under schedule %s...' % (pid, tr['reqs'], tr['sched'][:30]), case)
     neither = [tid for tid in asis_missing if tid in own_missing and tid not in fails]
@@ -270,7 +274,7 @@ def run_c09(chk):
     traces = []
 
     def execute(h):
-        names = ['R%d' % i for i in range(len(h))]
+        names = ['R%d%s' % (i, 'x' * (i % 4)) for i in range(len(h))]
         seq = [(k, names[i]) for i, k in enumerate(h)]
         res, tr, _ = L.run_threads([app], [seq], [], acc if acc.ok else None)
         tr['resp_ok'] = [res[0][i] == solo(*seq[i]) for i in range(len(seq))]
@@ -403,7 +407,7 @@ def run_c10(chk):
             seq = []
             for i in range(4):
                 ap = a if i % 2 == 0 else b
-                k = rng.choice(L.KINDS)
+                k = rng.choice(L.KINDS + ['badchunk', 'badchunk_json', 'badpath', 'm405'])
                 seq.append((lambda ap=ap, k=k, i=i: L.serve(ap, L.environ_for(k, 'S%d' % i))))
                 expect.append(solo(k, 'S%d' % i))
             reqs, apps = [seq], [a]
@@ -428,18 +432,21 @@ def run_c10(chk):
                     return [r, inner.get('res')]
                 exp_inner = solo('body', 'IN')
             else:
-                @a.route('/x/<name>')
+                @a.route('/x/<name>', method=['GET', 'POST'])
                 def h(name):
-                    before = (a.request.path, a.request.headers.get('X-Id'), a.request.query_string)
+                    a.request.tenant = 'tenant-' + name
+                    before = (a.request.path, a.request.headers.get('X-Id'), a.request.query_string,
+                              dict(a.request.forms), a.request.tenant, a.request.body.read())
                     if arr == 'copy':
                         c = a.request.copy()
                         keep = c.path
                     else:
                         keep = Ombott() and 'app'
-                    after = (a.request.path, a.request.headers.get('X-Id'), a.request.query_string)
+                    after = (a.request.path, a.request.headers.get('X-Id'), a.request.query_string,
+                             dict(a.request.forms), getattr(a.request, 'tenant', None), a.request.body.read())
                     a.response.headers['X-Outer'] = name
-                    return json.dumps([name, before, after, before == after, keep is not None])
-                env = L.environ_for('plain', 'OUT')
+                    return json.dumps([name, [before[0]], [after[0]], before == after, keep is not None])
+                env = L.environ_for('form', 'OUT')
                 env['PATH_INFO'] = '/x/OUT'
 
                 def act():
